@@ -99,7 +99,17 @@ impl Vm {
     }
 
     pub fn prepare_eval(&mut self, cell: &Cell) -> Result<(), Error> {
-        let lambda = self.compile_runnable(cell)?;
+        let lambda = match self.compile_runnable(cell) {
+            Ok(lambda) => lambda,
+            Err(e) => {
+                // The data and code the failed compilation put on the heap are
+                // garbage now. Give the collector the chance it gets after any other
+                // evaluation; otherwise a session of forms that fail to compile
+                // never collects and its heap grows without bound.
+                self.run_gc();
+                return Err(e);
+            }
+        };
         trace!("entry: \n{}", self.decompile_text(&lambda));
         let lambda = self.heap.put(lambda);
         self.ip.0 = lambda.as_ptr().unwrap();
